@@ -16,6 +16,7 @@ static val_t s_addr[2][32], s_val[2][32]; static uint32_t s_valid[2];
 static val_t ex_lo, ex_hi; static bool ex_valid;
 static val_t sp_entry;
 static bool ret_seen; static val_t ret_target; static uint32_t n_inst, n_store;
+static bool in_epilog;
 static uint32_t viol;
 #define CHK(k, c) do { if (!(c)) mach::viol |= 1u << (k); } while (0)
 
@@ -46,33 +47,27 @@ static val_t ea(const Operand_& o) {
 
 static Error exec(InstId id, const Operand_& o0, const Operand_& o1, const Operand_& o2) {
   n_inst++;
+  // Register saves and restores are recognised by their operand shapes and by the phase (prolog stores, epilog loads), which
+  // are concrete at every call site; the instruction id (looked up in a table by the real code) is only checked for agreement.
+  if (o0.is_reg() && (o1.is_mem() || (o1.is_reg() && o2.is_mem()))) {
+    bool pair = o1.is_reg();
+    uint32_t g = o0.as<Reg>().is_gp() ? G_GP : G_VEC;
+    uint32_t r0 = o0.id(), r1 = pair ? o1.id() : 0;
+    CHK(6, r0 < 31 + g && (!pair || (r1 < 31 + g && r1 != r0)) && (g == G_GP ? o0.as<Reg>().is_gp64() && (!pair || o1.as<Reg>().is_gp64()) : o0.as<Reg>().is_vec64() && (!pair || o1.as<Reg>().is_vec64())));
+    InstId want = !in_epilog ? (pair ? (g == G_GP ? a64::Inst::kIdStp : a64::Inst::kIdStp_v) : (g == G_GP ? a64::Inst::kIdStr : a64::Inst::kIdStr_v))
+                             : (pair ? (g == G_GP ? a64::Inst::kIdLdp : a64::Inst::kIdLdp_v) : (g == G_GP ? a64::Inst::kIdLdr : a64::Inst::kIdLdr_v));
+    CHK(7, id == want);
+    val_t a = ea(pair ? o2 : o1);
+    if (!in_epilog) {
+      store(g, r0, a, g == G_GP ? x[r0 & 31] : d[r0 & 31]);
+      if (pair) store(g, r1, a + 8, g == G_GP ? x[r1 & 31] : d[r1 & 31]);
+    } else {
+      val_t v0 = load(g, r0, a), v1 = pair ? load(g, r1, a + 8) : 0;
+      if (g == G_GP) { x[r0 & 31] = v0; if (pair) x[r1 & 31] = v1; } else { d[r0 & 31] = v0; if (pair) d[r1 & 31] = v1; }
+    }
+    return Error::kOk;
+  }
   switch (id) {
-    case a64::Inst::kIdStp: case a64::Inst::kIdStp_v: {
-      uint32_t g = id == a64::Inst::kIdStp ? G_GP : G_VEC;
-      CHK(6, o0.is_reg() && o1.is_reg() && o2.is_mem() && o0.id() < 32 && o1.id() < 32 && (g == G_GP ? (o0.as<Reg>().is_gp64() && o1.as<Reg>().is_gp64() && o0.id() != 31 && o1.id() != 31) : (o0.as<Reg>().is_vec64() && o1.as<Reg>().is_vec64())));  // stp of two x or two d registers
-      val_t v0 = g == G_GP ? x[o0.id() & 31] : d[o0.id() & 31], v1 = g == G_GP ? x[o1.id() & 31] : d[o1.id() & 31];
-      val_t a = ea(o2); store(g, o0.id(), a, v0); store(g, o1.id(), a + 8, v1); break;
-    }
-    case a64::Inst::kIdStr: case a64::Inst::kIdStr_v: {
-      uint32_t g = id == a64::Inst::kIdStr ? G_GP : G_VEC;
-      CHK(7, o0.is_reg() && o1.is_mem() && o0.id() < 32 && (g == G_GP ? (o0.as<Reg>().is_gp64() && o0.id() != 31) : o0.as<Reg>().is_vec64()));  // str of an x or d register
-      val_t v0 = g == G_GP ? x[o0.id() & 31] : d[o0.id() & 31];
-      val_t a = ea(o1); store(g, o0.id(), a, v0); break;
-    }
-    case a64::Inst::kIdLdp: case a64::Inst::kIdLdp_v: {
-      uint32_t g = id == a64::Inst::kIdLdp ? G_GP : G_VEC;
-      CHK(8, o0.is_reg() && o1.is_reg() && o2.is_mem() && o0.id() < 32 && o1.id() < 32 && o0.id() != o1.id() && (g == G_GP ? (o0.as<Reg>().is_gp64() && o1.as<Reg>().is_gp64() && o0.id() != 31 && o1.id() != 31) : (o0.as<Reg>().is_vec64() && o1.as<Reg>().is_vec64())));  // ldp of two distinct x or d registers
-      val_t a = ea(o2); val_t v0 = load(g, o0.id(), a), v1 = load(g, o1.id(), a + 8);
-      if (g == G_GP) { x[o0.id() & 31] = v0; x[o1.id() & 31] = v1; } else { d[o0.id() & 31] = v0; d[o1.id() & 31] = v1; }
-      break;
-    }
-    case a64::Inst::kIdLdr: case a64::Inst::kIdLdr_v: {
-      uint32_t g = id == a64::Inst::kIdLdr ? G_GP : G_VEC;
-      CHK(9, o0.is_reg() && o1.is_mem() && o0.id() < 32 && (g == G_GP ? (o0.as<Reg>().is_gp64() && o0.id() != 31) : o0.as<Reg>().is_vec64()));  // ldr of an x or d register
-      val_t a = ea(o1); val_t v0 = load(g, o0.id(), a);
-      if (g == G_GP) x[o0.id() & 31] = v0; else d[o0.id() & 31] = v0;
-      break;
-    }
     case a64::Inst::kIdMov: { CHK(10, o0.is_reg() && o1.is_reg() && o0.id() < 32 && o1.id() < 32); x[o0.id() & 31] = x[o1.id() & 31]; break; }   // mov x29, sp
     case a64::Inst::kIdSub: { CHK(11, o0.is_reg() && o1.is_reg() && o2.is_imm() && o0.id() == 31 && o1.id() == 31); x[31] -= val_t(o2.as<Imm>().value()); break; }
     case a64::Inst::kIdAdd: { CHK(12, o0.is_reg() && o1.is_reg() && o2.is_imm() && o0.id() == 31 && o1.id() == 31); x[31] += val_t(o2.as<Imm>().value()); break; }
@@ -89,10 +84,8 @@ static void flush_checks() {
   V_ASSERT(((viol >> 3) & 1) == 0, "a register is saved once");
   V_ASSERT(((viol >> 4) & 1) == 0, "model: stack accesses are sp plus immediate");
   V_ASSERT(((viol >> 5) & 1) == 0, "SP is 16-byte aligned whenever it is used as a base address");
-  V_ASSERT(((viol >> 6) & 1) == 0, "stp stores two x or two d registers");
-  V_ASSERT(((viol >> 7) & 1) == 0, "str stores an x or a d register");
-  V_ASSERT(((viol >> 8) & 1) == 0, "ldp loads two distinct x or d registers");
-  V_ASSERT(((viol >> 9) & 1) == 0, "ldr loads an x or a d register");
+  V_ASSERT(((viol >> 6) & 1) == 0, "register saves move x registers (not sp) or d registers, two distinct ones in a pair");
+  V_ASSERT(((viol >> 7) & 1) == 0, "prolog uses stp and str, epilog ldp and ldr, of the register kind being saved");
   V_ASSERT(((viol >> 10) & 1) == 0, "mov between x registers");
   V_ASSERT(((viol >> 11) & 1) == 0, "sub sp, sp, imm");
   V_ASSERT(((viol >> 12) & 1) == 0, "add sp, sp, imm");
@@ -112,7 +105,9 @@ ASMJIT_END_NAMESPACE
 alignas(16) static unsigned char emitter_mem[sizeof(BaseEmitter)];
 enum Known { K_NONE, K_C07C, K_C07D, K_C07E };
 
-template<Known KNOWN, CallConvId CCID, bool DARWIN>
+// SMALL: quick-tier slice - only x19-x21, x29, x30 and d8-d10 may be dirty (3 + 2 register pairs at most); the thorough tier
+// runs the same harness with all 2^32 x 2^32 dirty masks.
+template<Known KNOWN, CallConvId CCID, bool DARWIN, bool SMALL>
 static void run() {
   using namespace mach;
   constexpr Arch ARCH = Arch::kAArch64;
@@ -127,8 +122,8 @@ static void run() {
   V_ASSERT(f.arch() == ARCH, "frame arch copied from the convention");
   f._arch = ARCH;   // constant index into the arch-traits table (no-op natively)
 
-  f.add_dirty_regs(RegGroup::kGp, nondet_u32());
-  f.add_dirty_regs(RegGroup::kVec, nondet_u32());
+  f.add_dirty_regs(RegGroup::kGp, nondet_u32() & (SMALL ? 0x60380000u | 0x3FFFFu : ~0u));   // (registers the convention does not preserve are never saved)
+  f.add_dirty_regs(RegGroup::kVec, nondet_u32() & (SMALL ? 0xFFFF07FFu : ~0u));
   uint32_t lsz = nondet_u32() & 0xFFF8, csz = nondet_u32() & 0xFFF8;   // 0..65528, whole 8-byte words
   f.set_local_stack_size(lsz); f.set_call_stack_size(csz);
   uint32_t la = 1u << (nondet_u8() % 7), ca = 1u << (nondet_u8() % 7);
@@ -167,7 +162,7 @@ static void run() {
   val_t sp0 = nondet_u32() & ~val_t(15);
   V_ASSUME(sp0 >= 0x100000 && sp0 <= 0x7FFF0000u);   // room for the largest frame below, no wrap-around above
   x[31] = sp0; sp_entry = sp0;
-  s_valid[0] = s_valid[1] = 0; ex_valid = false; viol = 0; ret_seen = false; n_inst = 0; n_store = 0;
+  s_valid[0] = s_valid[1] = 0; ex_valid = false; viol = 0; in_epilog = false; ret_seen = false; n_inst = 0; n_store = 0;
   BaseEmitter* em = reinterpret_cast<BaseEmitter*>(emitter_mem);
   em->_environment = env;
   em->_gp_signature = OperandSignature{RegTraits<RegType::kGp64>::kSignature};
@@ -192,6 +187,7 @@ static void run() {
   uint32_t clob_vec = f.dirty_regs(RegGroup::kVec) | ~pres_vec;
   for (uint32_t i = 0; i < 32; i++) { if ((clob_gp >> i) & 1) x[i] = nondet_u32(); if ((clob_vec >> i) & 1) d[i] = nondet_u32(); }
 
+  in_epilog = true;
   Error ee = helper.emit_epilog(f);
   V_ASSERT(ee == Error::kOk, "epilog emitted");
   flush_checks();
@@ -207,9 +203,11 @@ static void run() {
   if (S > 0xFFF) V_WITNESS("two-step-adjustment");
 }
 
-HARNESS h_prolog_a64_aapcs() { run<K_NONE, CallConvId::kCDecl, false>(); }
-HARNESS h_prolog_a64_apple() { run<K_NONE, CallConvId::kCDecl, true>(); }
-HARNESS h_prolog_a64_light() { run<K_NONE, CallConvId::kLightCall2, false>(); }
-HARNESS h_prolog_a64_kf_C07C() { run<K_C07C, CallConvId::kCDecl, false>(); }
-HARNESS h_prolog_a64_kf_C07D() { run<K_C07D, CallConvId::kCDecl, false>(); }
-HARNESS h_prolog_a64_kf_C07E() { run<K_C07E, CallConvId::kLightCall2, false>(); }
+HARNESS h_prolog_a64_aapcs_small() { run<K_NONE, CallConvId::kCDecl, false, true>(); }
+HARNESS h_prolog_a64_apple_small() { run<K_NONE, CallConvId::kCDecl, true, true>(); }
+HARNESS h_prolog_a64_kf_C07C() { run<K_C07C, CallConvId::kCDecl, false, true>(); }
+HARNESS h_prolog_a64_kf_C07D() { run<K_C07D, CallConvId::kCDecl, false, true>(); }
+HARNESS h_prolog_a64_aapcs() { run<K_NONE, CallConvId::kCDecl, false, false>(); }
+HARNESS h_prolog_a64_apple() { run<K_NONE, CallConvId::kCDecl, true, false>(); }
+HARNESS h_prolog_a64_light() { run<K_NONE, CallConvId::kLightCall2, false, false>(); }
+HARNESS h_prolog_a64_kf_C07E() { run<K_C07E, CallConvId::kLightCall2, false, false>(); }
